@@ -47,13 +47,75 @@ def load_specs():
     return specs
 
 
-def _verify_worker(fq: str, timeout_ms: int, seed: int):
+def _sha(path: str) -> str:
+    with open(path, "rb") as f:
+        return hashlib.sha256(f.read()).hexdigest()
+
+
+def _tool_key(fq: str, timeout_ms: int, seed: int) -> str:
+    """identity of everything on the /verif side that influences a function's verdict"""
+    h = hashlib.sha256()
+    for p in sorted(glob.glob(os.path.join(VERIF, "specs", "*.py")) + glob.glob(os.path.join(VERIF, "pyvc", "*.py"))
+                    + glob.glob(os.path.join(VERIF, "KNOWN_FINDINGS.jsonl"))):
+        h.update(p.encode())
+        h.update(_sha(p).encode())
+    h.update(f"{fq}|{timeout_ms}|{seed}".encode())
+    return h.hexdigest()[:32]
+
+
+def _cache_lookup(fq, timeout_ms, seed):
+    """Content-addressed reuse *within and across* runs: a function's result is reused only if the contracts, the
+    verifier and every /repo source file the VC generation read are byte-identical (sha256).  Several property checks
+    share the same functions; this keeps a full `vcheck` sweep from re-proving them for each property."""
+    if os.environ.get("VERIF_NO_CACHE"):
+        return None
+    path = os.path.join(OUT, "cache", _tool_key(fq, timeout_ms, seed) + ".json")
+    if not os.path.exists(path):
+        return None
     try:
+        ent = json.load(open(path))
+        for p, sha in ent["deps"].items():
+            if not os.path.exists(p) or _sha(p) != sha:
+                return None
+        rep = ent["report"]
+        rep["cached"] = True
+        return rep
+    except Exception:
+        return None
+
+
+def _cache_store(fq, timeout_ms, seed, rep: dict, deps: dict):
+    try:
+        os.makedirs(os.path.join(OUT, "cache"), exist_ok=True)
+        path = os.path.join(OUT, "cache", _tool_key(fq, timeout_ms, seed) + ".json")
+        tmp = path + f".{os.getpid()}.tmp"
+        with open(tmp, "w") as f:
+            json.dump({"deps": deps, "report": rep}, f)
+        os.replace(tmp, path)
+    except Exception:
+        pass
+
+
+def _verify_worker(fq: str, timeout_ms: int, seed: int, jobs: int = 8):
+    try:
+        hit = _cache_lookup(fq, timeout_ms, seed)
+        if hit is not None:
+            return hit
         from .verify import make_world, verify_function
         specs = load_specs()
         w = make_world(specs, REPO)
-        rep = verify_function(w, specs, fq, timeout_ms=timeout_ms, seed=seed)
-        return dataclasses.asdict(rep)
+        single = {(k.get("obligation_kind", "ensures"), k["clause"]) for k in load_known()
+                  if k.get("kind") == "finding" and k.get("function") == fq and k.get("clause")}
+        rep = verify_function(w, specs, fq, timeout_ms=timeout_ms, seed=seed, jobs=jobs, single_attempt=single)
+        d = dataclasses.asdict(rep)
+        d["cached"] = False
+        # budgets are deterministic resource limits, so a verdict is a function of the inputs hashed below
+        if not rep.error and rep.obligations and all(
+                o["status"] in ("proved", "unknown", "refuted") and "hard timeout" not in str(o.get("reason"))
+                for o in rep.obligations):
+            deps = {m.path: _sha(m.path) for m in w.repo.modules.values()}
+            _cache_store(fq, timeout_ms, seed, d, deps)
+        return d
     except Exception as e:  # tool crash
         return {"fq": fq, "error": f"checker crash: {e!r}\n{traceback.format_exc()[-2000:]}", "obligations": [],
                 "paths": 0, "terminal_paths": 0, "sha256": "", "requires_sat": "n/a", "solver_s": 0.0, "wall_s": 0.0}
@@ -61,6 +123,8 @@ def _verify_worker(fq: str, timeout_ms: int, seed: int):
 
 def _native_worker(spec_module: str, cname: str, n: int, seed: int):
     try:
+        import logging
+        logging.disable(logging.CRITICAL)  # the real code logs expected failures (e.g. a raising user policy)
         from . import native
         return native.search(spec_module, cname, n, seed, stop_at=5)
     except Exception as e:
@@ -129,10 +193,18 @@ def main(argv=None):
     known = [k for k in load_known() if k.get("kind") == "finding" and k.get("property") == prop]
     results, natives = {}, {}
     custom = None
-    with ProcessPoolExecutor(max_workers=min(16, max(2, len(contracts) * 2 + 1))) as ex:
+    # at most ~16 solver processes in total: few functions at a time, each with its share of solver workers
+    par = max(1, min(4, len(contracts)))
+    jobs = max(2, 16 // par)
+    # big functions first (longest-processing-time order keeps the tail short)
+    contracts.sort(key=lambda c_: -len(c_.ensures) - 3 * len(c_.loop_inv))
+    import multiprocessing
+    # every task in a fresh interpreter (z3's context, counters and enum sorts are process-global)
+    with ProcessPoolExecutor(max_workers=par + 1, max_tasks_per_child=1,
+                             mp_context=multiprocessing.get_context("spawn")) as ex:
         futs = {}
         for c in contracts:
-            futs[ex.submit(_verify_worker, c.fq, timeout_ms, seed)] = ("v", c)
+            futs[ex.submit(_verify_worker, c.fq, timeout_ms, seed, jobs)] = ("v", c)
             if has_native_gen(c.spec_module, c.name):
                 futs[ex.submit(_native_worker, c.spec_module, c.name, n_native, seed)] = ("n", c)
         futs[ex.submit(_custom_worker, prop, tier, seed)] = ("c", None)
@@ -171,7 +243,8 @@ def main(argv=None):
         fn_table.append({"function": c.fq, "sha256": rep.get("sha256", "")[:16], "paths": rep.get("paths"),
                          "terminal_paths": rep.get("terminal_paths"), "requires_satisfiable": rep.get("requires_sat"),
                          "obligations": len(rep.get("obligations", [])),
-                         "native_evaluations": (nat or {}).get("evaluations", 0), "trusted": c.trusted})
+                         "native_evaluations": (nat or {}).get("evaluations", 0), "trusted": c.trusted,
+                         "reused_identical_result": bool(rep.get("cached"))})
         if rep.get("error"):
             tool_errors.append(f"{c.fq}: {rep['error']}")
             continue
